@@ -24,16 +24,34 @@ import (
 	"github.com/pgavlin/dawn/label"
 )
 
+// c06Fault makes a module file fail by itself (not because of a load cycle):
+//
+//	missing      the file does not exist                       (ExecFile cannot open it)
+//	dir          a directory stands where the file should be   (ExecFile cannot read it)
+//	syntax       the file does not parse                       (none of its load statements runs)
+//	unknownproj  the module lives in a project that is not in the build list: every load statement names it as
+//	             example.com/lib//:<name>.dawn and module.env fails before ExecFile
+//	fail         fail("...") after the first At load statements
+//	badsym       load statement number At (1-based) asks for a name its module does not define
+type c06Fault struct {
+	Kind string `json:"kind"`
+	At   int    `json:"at"`
+}
+
 type c06Pkg struct {
-	Dir   string   `json:"dir"` // "" = project root
-	Loads []string `json:"loads"`
-	Flag  bool     `json:"flag"`
+	Dir   string    `json:"dir"` // "" = project root
+	Loads []string  `json:"loads"`
+	Flag  bool      `json:"flag"`
+	Fault *c06Fault `json:"fault,omitempty"` // syntax / fail / badsym only
 }
 
 type c06Scenario struct {
-	Class string              `json:"class"`
-	Mods  map[string][]string `json:"mods"` // module name -> names it loads (file //:<name>.dawn)
-	Pkgs  []c06Pkg            `json:"pkgs"`
+	Class  string              `json:"class"`
+	Mods   map[string][]string `json:"mods"` // module name -> names it loads (file //:<name>.dawn)
+	Pkgs   []c06Pkg            `json:"pkgs"`
+	Faults map[string]c06Fault `json:"faults,omitempty"`
+	RvMods []string            `json:"rvmods,omitempty"` // second rendezvous: every one of these modules is executing
+	Reps   int                 `json:"-"`                // 0 = the default number of repetitions
 }
 
 type c06Run struct {
@@ -41,6 +59,10 @@ type c06Run struct {
 	Class    string              `json:"class"`
 	Mods     map[string][]string `json:"mods"`
 	Pkgs     []c06Pkg            `json:"pkgs"`
+	Faults   map[string]c06Fault `json:"faults,omitempty"`
+	RvMods   []string            `json:"rvmods,omitempty"`
+	Rv       bool                `json:"rendezvous"`
+	RvLate   int                 `json:"rv_timeouts"`
 	JSeed    int64               `json:"jseed"`
 	Hang     bool                `json:"hang"`
 	Panic    string              `json:"panic,omitempty"`
@@ -81,12 +103,53 @@ func c06gid() string {
 	return "?"
 }
 
+// c06Rendezvous is a directed schedule: the goroutines that enter module.load of one of the labels in want block
+// there until every label in want is being executed (or the timeout passes: the loader serialised them).  With
+// want = all package files, every package is mid-execution before any of them reaches its first load statement.
+type c06Rendezvous struct {
+	mu      sync.Mutex
+	want    map[string]bool
+	arrived int
+	ch      chan struct{}
+	late    int
+}
+
+func c06NewRendezvous(labels []string) *c06Rendezvous {
+	rv := &c06Rendezvous{want: map[string]bool{}, ch: make(chan struct{})}
+	for _, l := range labels {
+		rv.want[l] = true
+	}
+	return rv
+}
+
+func (rv *c06Rendezvous) arrive(label string) {
+	rv.mu.Lock()
+	if !rv.want[label] {
+		rv.mu.Unlock()
+		return
+	}
+	delete(rv.want, label)
+	rv.arrived++
+	if len(rv.want) == 0 {
+		close(rv.ch)
+	}
+	rv.mu.Unlock()
+	select {
+	case <-rv.ch:
+	case <-time.After(150 * time.Millisecond):
+		rv.mu.Lock()
+		rv.late++
+		rv.mu.Unlock()
+	}
+}
+
 type c06Log struct {
 	mu     sync.Mutex
 	rng    *rand.Rand
 	events [][]string
 	jitter bool
 	stop   bool
+	rvs    []*c06Rendezvous
 }
 
 var c06OutOfLock = map[string]bool{"chain.hop": true, "chain.cycle": true, "module.wait": true, "module.exec": true}
@@ -132,6 +195,11 @@ func (l *c06Log) handle(point string, args ...any) {
 		}
 	}
 	l.mu.Unlock()
+	if point == "module.exec" && len(ev) >= 3 {
+		for _, rv := range l.rvs {
+			rv.arrive(ev[2])
+		}
+	}
 	switch action {
 	case 1:
 		runtime.Gosched()
@@ -143,6 +211,48 @@ func (l *c06Log) handle(point string, args ...any) {
 // ---------------------------------------------------------------------------------------------------------
 // project generation
 
+const c06UnknownProject = "example.com/lib"
+
+// c06Ref is the label a load statement uses for module d.
+func c06Ref(sc *c06Scenario, d string) string {
+	if f, ok := sc.Faults[d]; ok && f.Kind == "unknownproj" {
+		return c06UnknownProject + "//:" + d + ".dawn"
+	}
+	return "//:" + d + ".dawn"
+}
+
+// c06ModLabel / c06PkgLabel: the String() of the module's label, as the hooks report it.
+func c06ModLabel(sc *c06Scenario, d string) string {
+	if f, ok := sc.Faults[d]; ok && f.Kind == "unknownproj" {
+		return "module:" + c06UnknownProject + "//:" + d + ".dawn"
+	}
+	return "module://:" + d + ".dawn"
+}
+
+func c06PkgLabel(dir string) string { return "module://" + dir + ":BUILD.dawn" }
+
+// c06Body renders the load statements of a file and the fault, if any, at its place among them.
+func c06Body(sc *c06Scenario, loads []string, f *c06Fault) string {
+	var b strings.Builder
+	for i, d := range loads {
+		if f != nil && f.Kind == "fail" && f.At == i {
+			b.WriteString("fail(\"boom\")\n")
+		}
+		sym := "f_" + d
+		if f != nil && f.Kind == "badsym" && f.At == i+1 {
+			sym = "no_such_name"
+		}
+		fmt.Fprintf(&b, "load(%q, x%d=%q)\n", c06Ref(sc, d), i, sym)
+	}
+	if f != nil && f.Kind == "fail" && f.At >= len(loads) {
+		b.WriteString("fail(\"boom\")\n")
+	}
+	if f != nil && f.Kind == "syntax" {
+		b.WriteString("def (:\n")
+	}
+	return b.String()
+}
+
 func c06Write(dir string, sc *c06Scenario) error {
 	if err := os.WriteFile(filepath.Join(dir, "dawn.toml"), nil, 0o644); err != nil {
 		return err
@@ -153,12 +263,21 @@ func c06Write(dir string, sc *c06Scenario) error {
 	}
 	sort.Strings(names)
 	for _, n := range names {
-		var b strings.Builder
-		for i, d := range sc.Mods[n] {
-			fmt.Fprintf(&b, "load(\"//:%s.dawn\", x%d=\"f_%s\")\n", d, i, d)
+		var f *c06Fault
+		if ff, ok := sc.Faults[n]; ok {
+			f = &ff
+			switch ff.Kind {
+			case "missing", "unknownproj":
+				continue
+			case "dir":
+				if err := os.MkdirAll(filepath.Join(dir, n+".dawn"), 0o755); err != nil {
+					return err
+				}
+				continue
+			}
 		}
-		fmt.Fprintf(&b, "\ndef f_%s():\n    pass\n", n)
-		if err := os.WriteFile(filepath.Join(dir, n+".dawn"), []byte(b.String()), 0o644); err != nil {
+		body := c06Body(sc, sc.Mods[n], f) + fmt.Sprintf("\ndef f_%s():\n    pass\n", n)
+		if err := os.WriteFile(filepath.Join(dir, n+".dawn"), []byte(body), 0o644); err != nil {
 			return err
 		}
 	}
@@ -168,9 +287,7 @@ func c06Write(dir string, sc *c06Scenario) error {
 			return err
 		}
 		var b strings.Builder
-		for j, l := range p.Loads {
-			fmt.Fprintf(&b, "load(\"//:%s.dawn\", x%d=\"f_%s\")\n", l, j, l)
-		}
+		b.WriteString(c06Body(sc, p.Loads, p.Fault))
 		fmt.Fprintf(&b, "\n@target()\ndef t%d():\n    pass\n", i)
 		if p.Flag {
 			fmt.Fprintf(&b, "\nfl%d = parse_flag(\"fl%d\")\n", i, i)
@@ -322,10 +439,181 @@ func c06Random(rng *rand.Rand, acyclic bool) c06Scenario {
 	return c06Scenario{Class: class, Mods: mods, Pkgs: c06PkgsFor(entries, rng.Intn(2) == 0)}
 }
 
+// c06Faulty: the fault family.  Every fault kind is put on a module that several loaders share (directly, through
+// intermediate modules, below a chain, at the bottom of a diamond, next to and inside a cycle) and on a package file.
+func c06Faulty() []c06Scenario {
+	var out []c06Scenario
+	add := func(class string, mods map[string][]string, entries [][]string, faults map[string]c06Fault) *c06Scenario {
+		out = append(out, c06Scenario{Class: class, Mods: mods, Pkgs: c06PkgsFor(entries, len(out)%2 == 0), Faults: faults})
+		return &out[len(out)-1]
+	}
+	cp := func(m map[string][]string) map[string][]string {
+		r := map[string][]string{}
+		for k, v := range m {
+			r[k] = append([]string(nil), v...)
+		}
+		return r
+	}
+	kinds := []c06Fault{{"missing", 0}, {"dir", 0}, {"syntax", 0}, {"unknownproj", 0}, {"fail", 0}, {"fail", 1}, {"fail", 2}, {"badsym", 1}, {"badsym", 2}}
+	for _, f := range kinds {
+		c := "fault-" + f.Kind
+		// h loads two good leaves (run-time faults stop between / after them); shared directly by 2 and by 4 packages
+		leaf := map[string][]string{"h": {"a", "b"}, "a": nil, "b": nil}
+		add(c+"-shared", cp(leaf), [][]string{{"h"}, {"h"}}, map[string]c06Fault{"h": f})
+		add(c+"-shared", cp(leaf), [][]string{{"h"}, {"h"}, {"a", "h"}, {"h", "b"}}, map[string]c06Fault{"h": f})
+		// reached through intermediate modules, and by a package that loads good modules first
+		via := map[string][]string{"u": {"h"}, "v": {"a", "h"}, "h": {"a", "b"}, "a": nil, "b": nil}
+		add(c+"-via", cp(via), [][]string{{"u"}, {"v"}, {"a", "b", "u"}}, map[string]c06Fault{"h": f})
+		// at the end of a chain entered at three points
+		chain := map[string][]string{"m0": {"m1"}, "m1": {"m2"}, "m2": {"m3", "m4"}, "m3": nil, "m4": nil}
+		add(c+"-chain", cp(chain), [][]string{{"m0"}, {"m1"}, {"m2"}}, map[string]c06Fault{"m2": f})
+		// at the bottom of a diamond
+		dia := map[string][]string{"m0": {"m1", "m2"}, "m1": {"m3"}, "m2": {"m3"}, "m3": {"a", "b"}, "a": nil, "b": nil}
+		add(c+"-diamond", cp(dia), [][]string{{"m1"}, {"m2"}, {"m0"}}, map[string]c06Fault{"m3": f})
+		// next to a cycle (loaded before the cycle is entered) and inside one (a module of the cycle fails before or
+		// after it closes the cycle)
+		cyc := map[string][]string{"m0": {"h", "m1"}, "m1": {"m2"}, "m2": {"m0"}, "h": {"a", "b"}, "a": nil, "b": nil}
+		add(c+"-cycle", cp(cyc), [][]string{{"m0"}, {"m1"}, {"h", "m2"}}, map[string]c06Fault{"h": f})
+		cyc2 := map[string][]string{"m0": {"a", "m1"}, "m1": {"m2"}, "m2": {"b", "m0"}, "a": nil, "b": nil}
+		add(c+"-incycle", cp(cyc2), [][]string{{"m0"}, {"m1"}, {"m2"}}, map[string]c06Fault{"m2": f})
+		// two failing modules
+		two := map[string][]string{"h": {"a", "b"}, "g": {"b", "a"}, "a": nil, "b": nil}
+		add(c+"-two", cp(two), [][]string{{"h", "g"}, {"g", "h"}, {"a", "g"}}, map[string]c06Fault{"h": f, "g": {"missing", 0}})
+		// a package file that fails by itself after (or before) loading what the others are waiting for
+		if f.Kind == "syntax" || f.Kind == "fail" || f.Kind == "badsym" {
+			sc := add(c+"-pkg", cp(leaf), [][]string{{"h", "a"}, {"h"}, {"b", "h"}}, nil)
+			ff := f
+			sc.Pkgs[0].Fault = &ff
+		}
+	}
+	return out
+}
+
+func c06RandomFaulty(rng *rand.Rand) c06Scenario {
+	sc := c06Random(rng, rng.Intn(3) != 0)
+	sc.Class += "-faulty"
+	kinds := []string{"missing", "dir", "syntax", "unknownproj", "fail", "fail", "badsym"}
+	names := make([]string, 0, len(sc.Mods))
+	for n := range sc.Mods {
+		names = append(names, n)
+	}
+	sort.Strings(names)
+	sc.Faults = map[string]c06Fault{}
+	for k := 1 + rng.Intn(2); k > 0; k-- {
+		n := names[rng.Intn(len(names))]
+		f := c06Fault{Kind: kinds[rng.Intn(len(kinds))]}
+		switch f.Kind {
+		case "fail":
+			f.At = rng.Intn(len(sc.Mods[n]) + 1)
+		case "badsym":
+			if len(sc.Mods[n]) == 0 {
+				f.Kind = "fail"
+			} else {
+				f.At = 1 + rng.Intn(len(sc.Mods[n]))
+			}
+		}
+		sc.Faults[n] = f
+	}
+	if rng.Intn(4) == 0 {
+		p := &sc.Pkgs[rng.Intn(len(sc.Pkgs))]
+		p.Fault = &c06Fault{Kind: "fail", At: rng.Intn(len(p.Loads) + 1)}
+	}
+	return sc
+}
+
+// c06Scale: the size family.  The same shapes as c06Fixed at sizes from a handful to a few hundred modules or
+// packages (sizes = $VERIF_SIZES, around powers of two), so that any fixed capacity in the loader (a pool, a
+// semaphore, a depth or fan-out limit, a buffer) is crossed: chains and cycles n deep, n packages side by side,
+// n packages each w modules deep in private chains, a module with n load statements, a chain of n modules that all
+// load one helper.  RvMods adds a second rendezvous with every private chain at its deepest module.
+func c06Scale(sizes []int) []c06Scenario {
+	var out []c06Scenario
+	add := func(class string, mods map[string][]string, pkgs []c06Pkg, rv []string) {
+		out = append(out, c06Scenario{Class: class, Mods: mods, Pkgs: pkgs, RvMods: rv, Reps: 3})
+	}
+	flat := func(entries [][]string) []c06Pkg {
+		var ps []c06Pkg
+		for i, e := range entries {
+			ps = append(ps, c06Pkg{Dir: "p" + strconv.Itoa(i), Loads: e, Flag: i%16 == 0})
+		}
+		return ps
+	}
+	for _, n := range sizes {
+		nm := c06Names(n)
+		// chain of n modules: one package at the top; three packages at top, middle and bottom
+		chain := map[string][]string{}
+		for i := 0; i < n; i++ {
+			if i+1 < n {
+				chain[nm[i]] = []string{nm[i+1]}
+			} else {
+				chain[nm[i]] = nil
+			}
+		}
+		add("deepchain", chain, flat([][]string{{nm[0]}}), nil)
+		add("deepchain", chain, flat([][]string{{nm[0]}, {nm[n/2]}, {nm[n-1], nm[0]}}), nil)
+		// cycle of n modules entered at one and at three points
+		cyc := map[string][]string{}
+		for i := 0; i < n; i++ {
+			cyc[nm[i]] = []string{nm[(i+1)%n]}
+		}
+		add("deepcycle", cyc, flat([][]string{{nm[0]}}), nil)
+		add("deepcycle", cyc, flat([][]string{{nm[0]}, {nm[n/3]}, {nm[2*n/3]}}), nil)
+		// n packages side by side, each loading a module of its own and then one shared helper
+		wide := map[string][]string{"z": {"y"}, "y": nil}
+		var entries [][]string
+		for i := 0; i < n; i++ {
+			wide[nm[i]] = []string{"z"}
+			entries = append(entries, []string{nm[i], "z"})
+		}
+		add("wide", wide, flat(entries), nil)
+		// one module with n load statements, loaded by two packages
+		fan := map[string][]string{"hub": append([]string(nil), nm...)}
+		for i := 0; i < n; i++ {
+			fan[nm[i]] = nil
+		}
+		add("fanout", fan, flat([][]string{{"hub"}, {nm[n-1], "hub"}}), nil)
+		// chain of n modules that all load one helper first
+		comb := map[string][]string{"z": nil}
+		for i := 0; i < n; i++ {
+			if i+1 < n {
+				comb[nm[i]] = []string{"z", nm[i+1]}
+			} else {
+				comb[nm[i]] = []string{"z"}
+			}
+		}
+		add("comb", comb, flat([][]string{{nm[0]}, {nm[n/2]}}), nil)
+		// w packages, each d deep in a private chain that ends in a shared helper: w*(d+1) modules executing at once
+		for _, w := range []int{4, 8} {
+			d := n / w
+			if d < 2 {
+				continue
+			}
+			wd := map[string][]string{"z": nil}
+			var es [][]string
+			var rv []string
+			for i := 0; i < w; i++ {
+				for j := 0; j < d; j++ {
+					me := fmt.Sprintf("c%d_%d", i, j)
+					if j+1 < d {
+						wd[me] = []string{fmt.Sprintf("c%d_%d", i, j+1)}
+					} else {
+						wd[me] = []string{"z"}
+						rv = append(rv, me)
+					}
+				}
+				es = append(es, []string{fmt.Sprintf("c%d_0", i)})
+			}
+			add("widedeep", wd, flat(es), rv)
+		}
+	}
+	return out
+}
+
 // ---------------------------------------------------------------------------------------------------------
 
-func c06RunOne(id int, sc *c06Scenario, jseed int64, watchdog time.Duration) *c06Run {
-	res := &c06Run{ID: id, Class: sc.Class, Mods: sc.Mods, Pkgs: sc.Pkgs, JSeed: jseed, MaxProcs: runtime.GOMAXPROCS(0)}
+func c06RunOne(id int, sc *c06Scenario, jseed int64, rendezvous bool, watchdog time.Duration) *c06Run {
+	res := &c06Run{ID: id, Class: sc.Class, Mods: sc.Mods, Pkgs: sc.Pkgs, Faults: sc.Faults, RvMods: sc.RvMods, Rv: rendezvous,
+		JSeed: jseed, MaxProcs: runtime.GOMAXPROCS(0)}
 	dir, err := os.MkdirTemp("", "verif-c06-")
 	if err != nil {
 		res.Panic = "mkdtemp: " + err.Error()
@@ -338,6 +626,19 @@ func c06RunOne(id int, sc *c06Scenario, jseed int64, watchdog time.Duration) *c0
 	}
 
 	lg := &c06Log{rng: rand.New(rand.NewSource(jseed)), jitter: jseed != 0}
+	if rendezvous {
+		var roots, deep []string
+		for _, p := range sc.Pkgs {
+			roots = append(roots, c06PkgLabel(p.Dir))
+		}
+		for _, m := range sc.RvMods {
+			deep = append(deep, c06ModLabel(sc, m))
+		}
+		lg.rvs = append(lg.rvs, c06NewRendezvous(roots))
+		if len(deep) > 0 {
+			lg.rvs = append(lg.rvs, c06NewRendezvous(deep))
+		}
+	}
 	evs := &c06Events{loading: map[string]int{}}
 	verifhook.SetHandler(lg.handle)
 	defer verifhook.SetHandler(nil)
@@ -371,6 +672,11 @@ func c06RunOne(id int, sc *c06Scenario, jseed int64, watchdog time.Duration) *c0
 	lg.stop = true
 	res.Log = lg.events
 	lg.mu.Unlock()
+	for _, rv := range lg.rvs {
+		rv.mu.Lock()
+		res.RvLate += rv.late
+		rv.mu.Unlock()
+	}
 	evs.mu.Lock()
 	res.Loading = map[string]int{}
 	for k, v := range evs.loading {
@@ -422,15 +728,32 @@ func TestVerifC06(t *testing.T) {
 	for i := 0; i < nrand; i++ {
 		scs = append(scs, c06Random(rng, i%2 == 0))
 	}
+	scs = append(scs, c06Faulty()...)
+	frng := rand.New(rand.NewSource(seed*104729 + 5))
+	for i := 0; i < nrand/4; i++ {
+		scs = append(scs, c06RandomFaulty(frng))
+	}
+	var sizes []int
+	for _, f := range strings.Split(os.Getenv("VERIF_SIZES"), ",") {
+		if n, err := strconv.Atoi(strings.TrimSpace(f)); err == nil && n >= 2 {
+			sizes = append(sizes, n)
+		}
+	}
+	scs = append(scs, c06Scale(sizes)...)
 	id := 0
 	hangs := 0
 	for i := range scs {
-		for r := 0; r < reps; r++ {
+		nr := reps
+		if scs[i].Reps > 0 {
+			nr = scs[i].Reps
+		}
+		for r := 0; r < nr; r++ {
 			js := int64(0) // first repetition: no jitter
 			if r > 0 {
 				js = seed*1000003 + int64(i)*131 + int64(r)
 			}
-			res := c06RunOne(id, &scs[i], js, time.Duration(wd)*time.Millisecond)
+			// second repetition: rendezvous (every package file executing before any goes on), then jitter
+			res := c06RunOne(id, &scs[i], js, r == 1, time.Duration(wd)*time.Millisecond)
 			id++
 			if err := enc.Encode(res); err != nil {
 				t.Fatal(err)
